@@ -292,6 +292,46 @@ class Engine:
         self.add(term == v)
         return v
 
+    def sample(self, leaves, n, what):
+        """FALLBACK for constructs outside the modelled fragment: the symbolic leaves (each with .eval(model) and an
+        equality constraint builder) are fixed to up to `n` solver-chosen, pairwise different assignments, one explored
+        path each.  When further assignments remain feasible the call site is recorded as SAMPLED: the check then no
+        longer claims 'for all values within the bounds' for the paths through it (reported as DEGRADED, listed in the
+        evidence); a violation found on a sample is a real, natively replayed violation like any other."""
+        def eqs(vals):
+            return z3.And(*[mk(v) for (_, mk), v in zip(leaves, vals)]) if leaves else z3.BoolVal(True)
+        if self.pos < len(self.prefix):
+            vals = self.prefix[self.pos]
+        else:
+            if self._check() != z3.sat:
+                raise PathEnd("infeasible at sample")
+            m = self.solver.model()
+            vals = tuple(ev(m) for ev, _ in leaves)
+            alts = []
+            self.solver.push()
+            self.solver.add(z3.Not(eqs(vals)))
+            more = False
+            while True:
+                rr = self._check()
+                if rr != z3.sat:
+                    break
+                if len(alts) >= n - 1:
+                    more = True
+                    break
+                m = self.solver.model()
+                w = tuple(ev(m) for ev, _ in leaves)
+                alts.append(w)
+                self.solver.add(z3.Not(eqs(w)))
+            self.solver.pop()
+            for w in alts:
+                self.res.pending.append(self.trace + [w])
+            if more:
+                self.res.notes.append("SAMPLED: %s explored for %d solver-chosen argument values only" % (what, 1 + len(alts)))
+        self.pos += 1
+        self.trace.append(vals)
+        self.add(eqs(vals))
+        return vals
+
     # -- obligations ----------------------------------------------------------------------------
     def must_hold(self, cond):
         """True iff pc implies cond (no fork). unknown -> False"""
